@@ -17,6 +17,7 @@ import QSP.Model.Cli
 import QSP.Model.Interleave
 import QSP.Model.Completion
 import QSP.Model.Decomp
+import QSP.Model.DecompSplit
 import QSP.Model.LinSys
 import QSP.Model.JacErr
 import QSP.Model.JacImpl
@@ -307,6 +308,18 @@ def handle (toks : List String) : String :=
   | ["seq.merge", a, b] =>
     match parseRatList a, parseRatList b with
     | some a, some b => showRatList (mergeAnglesQ a b)
+    | _, _ => bad
+  -- decomp.split <ldeg> <pairs> : pairs = comma separated `cos;sin` rationals.  Answer:
+  -- `l.I l.X suf.I suf.X sufpairs` with l = ~fromAngles(splitPrefixQ ps ldeg),
+  -- suf = fromAngles(splitSuffixQ ps ldeg), sufpairs = splitSuffixQ ps ldeg
+  | ["decomp.split", ldeg, pairs] =>
+    match ldeg.toNat?, parseList parseCQ pairs with
+    | some l, some ps =>
+      let sp := splitSuffixQ ps l
+      match (LA.fromAngles (splitPrefixQ ps l)) >>= LA.conj, LA.fromAngles sp with
+      | .ok lc, .ok suf => s!"{showLA lc} {showLA suf} {showList showCQ sp}"
+      | .error er, _ => showErr er
+      | _, .error er => showErr er
     | _, _ => bad
   | ["newton.exit", crit, maxiter, errs] =>
     match parseRat crit, parseRat maxiter, parseRatList errs with
